@@ -977,3 +977,23 @@ def _q_alloc(st, a, ratios, disp, d):
             assert type(p.amount) in (Decimal, _F)
         return (f"ok {','.join(rat(p.amount) for p in portions)}@{qa.unit.symbol}:"
                 f"{type(qa).__name__} rem={rat(rem.amount)}")
+
+
+@op("q_str")
+def _q_str(st, a):
+    q = qty_of(a)
+    s = str(q)
+    assert format(q) == s and f"{q}" == s and "{}".format(q) == s
+    return "ok " + s
+
+
+@op("q_parse")
+def _q_parse(st, cls, text, unit_arg, d):
+    text = text.replace("\\t", "\t").replace("\\n", "\n")
+    with dflt_mode(d):
+        c = Quantity if cls == "-" else _cls(st, cls)
+        if unit_arg == "-":
+            q = c(text)
+        else:
+            q = c(text, Unit(unit_arg))
+    return "ok qty " + show_qty(q)
